@@ -1153,7 +1153,8 @@ def run_restricted(chk, F):
     al = G.collect_aliases(vp)
     gate = False
     for g in G.find_gates(vp, al):
-        if g.reports and any(a[0] in ("operator!=", "!=") or "find" in str(a) for a in g.atoms) and \
+        if g.reports and (any(a[0] in ("operator!=", "!=") or "find" in str(a) for a in g.atoms) or
+                          any(c.get("name") in ("count", "contains") for c in calls(g.ifnode["c"]))) and \
                 "restricted" in short(g.ifnode["c"]):
             gate = True
     chk.ob(rid, "gate|visitProcess", gate,
